@@ -132,7 +132,7 @@ def main():
             tie[getattr(g, "__name__", "gen")] = "unavailable(%s)" % str(e)[:200]
 
     # ---- theorems -----------------------------------------------------------
-    tie_mods = list(getattr(prop, "TIE", []))
+    tie_mods = list(getattr(prop, "TIE", [])) + list(getattr(prop, "EXTRA_MODULES", []))   # built, audited, re-checked with the property
     ok_all, out = vf.lake_build(["Ufw.Props." + pid, prop.DRIVER] + tie_mods)
     proof_ok = ok_all
     driver_ok = ok_all
